@@ -181,14 +181,25 @@ def search(ctx):
 
 C01NAMES = ["agree_unsatisfiable_of_shared_name", "agree_unsatisfiable_of_shared_function_name", "agree_of_injective",
             "assignLocals_class", "assignLocals_collision_free", "local_pass_collision_free",
-            "locals_with_distinct_sources_stay_distinct"]
+            "locals_with_distinct_sources_stay_distinct",
+            # the local pass protects exactly the names the usage analysis reports (seeded mutant C01-5)
+            "assignLocals_keeps_unreserved", "unreserved_used_name_can_be_captured", "usage_analysis_descends_everywhere"]
+
+# property C02's obligations about ir/src/usage_analysis.rs (gather_usage_* / GlobalUsageAnalysis): NameMap::build reserves for
+# local variables only the names of the functions / globals that this analysis reports as used by some body
+C02USAGE = ["tables_as_modelled", "all_positions_descended", "recurse_no_panic", "recurse_terminates", "close_is_reachability",
+            "calculateLocal_wf", "closeProgram_ok", "mentions_calculateLocal", "default_arguments_analysed",
+            "global_initialisers_analysed"]
 
 
 SPEC = {
     "id": "C01",
     # Reserved: C15's translator (reserved words + the source fingerprints of NameMap::build, incl. the local-variable pass)
-    "gens": ["HlslGenTables", "HlslIntrinsicTables", "HlslVecTables", "FmtTables", "ParseTables", "Reserved"],
-    "lean_modules": ["RsslVerif.Thm.C01", "RsslVerif.Thm.C01Names", "RsslVerif.Thm.C01Vec", "RsslVerif.Thm.C09", "RsslVerif.Thm.C15"],
+    # UsageTables: C02's translator (match-arm / field inventory of gather_usage_*: which fields of every statement / expression /
+    # initialiser variant the usage analysis descends into)
+    "gens": ["HlslGenTables", "HlslIntrinsicTables", "HlslVecTables", "FmtTables", "ParseTables", "Reserved", "UsageTables"],
+    "lean_modules": ["RsslVerif.Thm.C01", "RsslVerif.Thm.C01Names", "RsslVerif.Thm.C01Vec", "RsslVerif.Thm.C09", "RsslVerif.Thm.C15",
+                     "RsslVerif.Thm.C02"],
     "theorems": [T + n for n in [
         "op_table_is_identity", "op_table_injective", "intrinsic_table_is_identity", "exporter_shape_as_modelled",
         "literal_value_preserved", "literal_total", "literal_never_panics", "literal_int32_min",
@@ -215,7 +226,12 @@ SPEC = {
             "locals_apart_from_used", "scope_loop_terminates", "emitted_never_reserved", "emitted_injective_file_scope",
             "flat_used_name_unique", "uses_resolve_to_same_entity"]] + [
         # Thm/C01Names.lean: the local pass never gives two locals one name unless the source did, and what `Agree` needs
-        "RsslVerif.Thm.C01Names." + n for n in C01NAMES],
+        "RsslVerif.Thm.C01Names." + n for n in C01NAMES] + [
+        # which names are reserved for locals rests on the usage analysis: a body's mention that gather_usage_* does not visit
+        # leaves the symbol's name free for a local, which then captures the reference (Thm.C01Names.
+        # unreserved_used_name_can_be_captured; seeded mutant C01-5: the index of ArraySubscript no longer descended into makes
+        # all_positions_descended false).  C02's obligations about gather_usage_* / recurse are C01 obligations too
+        "RsslVerif.Thm.C02." + n for n in C02USAGE],
     "harness": "c01",
     "nontrivial": nontrivial,
     "finding_key": finding_key,
@@ -254,7 +270,19 @@ SPEC = {
             "_1_0 forms, helper, helper_0, helper_1, gv, gv_0, user_0, two plain names} with shadowing and re-use in sibling blocks; the text "
             "evaluator resolves every identifier of the re-parsed output by C block scoping (scopes.rs: innermost declaration; two "
             "declarations of a name in one scope, a dangling identifier or a call captured by a local are failures), the IR evaluator goes by "
-            "variable ids) and the corpus; argument vectors of all generated streams "
+            "variable ids), the usage-position stream (names.rs::usage_stream, 522 programs: the ONLY reference of the module to a global "
+            "variable / function sits at one of 64 syntactic positions — every statement-, expression- and initialiser-valued field "
+            "gather_usage_* descends into: expression statement, initialiser (first / second declarator), blocks, if / if-else / else-if "
+            "conditions and bodies, the four for-clauses incl. a second init-declarator, while / do-while condition and body, switch "
+            "selector and body, return, the three ?: operands, both comma operands, call arguments (first, second, nested, built-in, "
+            "method, out / inout), casts, unary / binary / logical operands, assignment targets, ++ / --, array index (read, write, "
+            "vector, nested), constructor slots, swizzle / member of a constructor / cast / call result, aggregate initialisers (array, "
+            "struct), default arguments — (A) inside the scope of a local `B` (pass / texture / min) that the name map renames to "
+            "`B_k` exactly when the symbol, literally called `B_k`, is NOT reported used, (A') the symbol is a global array / vector / matrix / struct called `B_k` and the "
+            "reference is the object of a subscript / swizzle / matrix swizzle / member access / method call, (B) in the own initialiser of a local "
+            "called like the symbol (`int slot = v[slot];`); C01.fn programs for the scalar positions, C01.vfn for arrays / vectors / "
+            "structs; the text evaluators follow C: a declarator's name is in scope in its own initialiser, the parameters "
+            "declared so far are in scope in a default argument, a local hides a function of its name) and the corpus; argument vectors of all generated streams "
             "draw floats from NaNs (quiet, signalling, negative, full payload), both zeros, infinities, subnormals, FLT_MIN / FLT_MAX, the "
             "conversion limits around 2^24 / 2^31 / 2^32, and ints from 0, +-1, INT_MIN(+1), INT_MAX, UINT_MAX(-1), 31 / 32 / 33, rounding "
             "boundaries; the second vector of every function has NaN in every float parameter; statement attributes are evaluated through "
@@ -309,8 +337,20 @@ SPEC = {
                   "(assignLocals_collision_free, local_pass_collision_free, locals_with_distinct_sources_stay_distinct: a generated name "
                   "never meets another local — the clause seeded mutant C01-4 falsifies), that a name shared by two variables or two "
                   "functions makes Agree unsatisfiable for every environment (agree_unsatisfiable_of_shared_name / _function_name), and that "
-                  "an injective assignment whose function names avoid the modelled built-ins satisfies it (agree_of_injective). Not closed in "
-                  "Lean: the identification of a request's Ctx with Model.Names.build's result (tied by C15's correspondence stream and by "
+                  "an injective assignment whose function names avoid the modelled built-ins satisfies it (agree_of_injective). Which names the local pass protects rests on "
+                  "the usage analysis (ir/src/usage_analysis.rs): assignLocals_keeps_unreserved / unreserved_used_name_can_be_captured prove, "
+                  "for every module, reserved list and usage set, that a local whose source name is the emitted name of a file-scope symbol "
+                  "which is neither reserved, nor a generated candidate, nor the name of a symbol the analysis reports keeps that name, and "
+                  "that Agree is then unsatisfiable for every context printing both entities (the converse of C15's "
+                  "locals_apart_from_used); so usage completeness is a premise: usage_analysis_descends_everywhere pins the re-extracted "
+                  "Gen.UsageTables (one arm per statement / expression / initialiser / for-init variant, every sub-statement / "
+                  "sub-expression field passed on, Global and Call recorded, bodies + default arguments + global initialisers gathered, "
+                  "fixpoint shape) and C02's obligations all_positions_descended, tables_as_modelled, mentions_calculateLocal, "
+                  "close_is_reachability, recurse_*, default_arguments_analysed, global_initialisers_analysed are cited (seeded mutant "
+                  "C01-5, the index of ArraySubscript no longer descended into, falsifies the first two and is found with the input "
+                  "`static uint slot = 2u; … int v[4] = { x, y, 7, 9 }; int slot = v[slot];`). Not closed in "
+                  "Lean: \"every mention of the IR sits at a position of Gen.UsageTables\" for the real gather_usage_* (C02's AllSeen "
+                  "hypothesis; tied by the usage-position stream and C02's correspondence), the identification of a request's Ctx with Model.Names.build's result (tied by C15's correspondence stream and by "
                   "C01's tree comparison, which includes every printed name), and block scoping — the Lean C semantics has one flat name "
                   "environment per function, so programs whose source shadows a name or re-uses it in a sibling block (both kept verbatim) are "
                   "outside the theorems (counted: well_typed_but_names_not_flat) and judged by the harness's two evaluators only.",
@@ -340,8 +380,12 @@ SPEC = {
         "the harness builds the request's name context with NameMap::build(module, RESERVED_NAMES of hlsl/src/names.rs read from the "
         "source tree, true) as GenerateContext::new does — a different call would show as a tree disagreement; "
         "harness/src/c01/scopes.rs: C / HLSL block scoping of the re-parsed text (parameters share the outermost block's scope, a for "
-        "statement's init-declaration shares the outermost block of its body, an initialiser is resolved before its declarator's name "
-        "exists — rssl's reading; `int y = y + 2;` under shadowing is never generated); printing/parsing of the tree (property C09)",
+        "statement's init-declaration shares the outermost block of its body, a declarator's name is in scope in its own "
+        "initialiser as in C++ [basic.scope.pdecl] / DXC — rssl's front end resolves the initialiser before the name exists, so "
+        "`int x = x + 2;` under shadowing is exported with a changed meaning: known finding, never generated by the random streams); "
+        "harness/src/c01/vtxev.rs keeps one frame per function (a local of a name hides the global / function of that name in the "
+        "whole function: stricter than C, equal on the generated programs, whose emitted local names differ from every referenced "
+        "file-scope name); tools/gens/c02.py (UsageTables) for the inventory of gather_usage_*; printing/parsing of the tree (property C09)",
     ],
     "assumptions": [
         "float arithmetic, the six float comparisons (independent of each other: no order axioms), int<->float conversions, integer "
